@@ -4,6 +4,7 @@ import GrafeoModel.Driver.Tx
 import GrafeoModel.Driver.Rdf
 import GrafeoModel.Driver.Wal
 import GrafeoModel.Driver.Ops
+import GrafeoModel.Driver.Ops2
 import GrafeoModel.Driver.Val
 import GrafeoModel.Driver.Exec
 import GrafeoModel.Driver.Lpg
@@ -53,6 +54,10 @@ def dispatch (st : DState) (line : String) : DState × String :=
       | none => (st, "bad-op")
     else if stream == "ops" then
       match DriverOps.handle args with
+      | some o => (st, o.render)
+      | none => (st, "bad-op")
+    else if stream == "ops2" then
+      match DriverOps2.handle args with
       | some o => (st, o.render)
       | none => (st, "bad-op")
     else if stream == "val" then
